@@ -63,7 +63,8 @@ theorem event_enc (rsOn : Bool) (rs rr δ : Nat) (e : Ev) (rest : Bytes)
 theorem event_eot (rr δ : Nat) (hδ : δ < 268435456) :
     event rr (encode δ ++ EOT) = some ⟨⟨δ, EOT⟩, 0, [], true⟩ := by
   unfold event
-  simp [vlq_encode δ hδ, EOT, vlq]
+  rw [vlq_encode δ hδ EOT]
+  simp [EOT, vlq]
 
 /-- a whole chunk body -/
 theorem events_track (rsOn : Bool) (body : ATrack) (δe : Nat) (hδ : δe < 268435456)
@@ -119,10 +120,80 @@ theorem chunks_enc (rsOn : Bool) (cs : List CTrack) (h : ∀ c ∈ cs, CTrackOK 
     have e2 : B.length / 256 % 256 < 256 := Nat.mod_lt _ (by decide)
     have e3 : B.length % 256 < 256 := Nat.mod_lt _ (by decide)
     have g : ¬ (B.length / 16777216 % 256 ≥ 256 ∨ B.length / 65536 % 256 ≥ 256 ∨ B.length / 256 % 256 ≥ 256 ∨ B.length % 256 ≥ 256) := by omega
-    simp only [List.length_cons, List.map_cons, List.flatten_cons, chunkBytes, encChunk, MTrk, be32, hB, hm,
-      List.cons_append, List.nil_append, List.append_assoc, chunks, hd, g, if_false]
-    have g2 : ¬ ((B ++ (List.map (chunkBytes rsOn) cs).flatten).length < B.length) := by simp
-    rw [if_neg g2, take_append_self, drop_append_self, hev, ih']
+    have hc1 : chunk1 (chunkBytes rsOn (body, δe) ++ (List.map (chunkBytes rsOn) cs).flatten)
+        = some (body.map evOf ++ [⟨δe, EOT⟩], (List.map (chunkBytes rsOn) cs).flatten) := by
+      have g2 : ¬ ((B ++ (List.map (chunkBytes rsOn) cs).flatten).length < B.length) := by simp
+      have t1 : ∀ X : Bytes, take4 (MTrk ++ X) = some (MTrk, X) := by intro X; simp [take4, MTrk]
+      have t2 : ∀ X : Bytes, take4 (be32 B.length ++ X) = some (be32 B.length, X) := by intro X; simp [take4, be32]
+      have t3 : be32val (be32 B.length) = some B.length := by
+        simp only [be32, be32val, g, if_false, hd]
+      simp only [chunkBytes, encChunk, hB, hm, List.append_assoc, chunk1, t1, t2, t3]
+      rw [if_neg (by simp), if_neg g2, take_append_self, drop_append_self, hev]
+    simp only [List.length_cons, List.map_cons, List.flatten_cons, chunks, hc1, ih']
     simp [prepTrack]
+
+end Midi.Strict
+
+namespace Midi.Strict
+open Midi.Vlq Midi.Smf
+
+/-- time divisions the SMF 1.0 text allows -/
+def StrictTF : TimeFormat → Prop
+  | .metric q => 1 ≤ q ∧ q ≤ 32767
+  | .smpte fps sub => (fps = 24 ∨ fps = 25 ∨ fps = 29 ∨ fps = 30) ∧ sub < 256
+
+theorem strictTF_valid (tf : TimeFormat) (h : StrictTF tf) : ValidTF tf := by
+  cases tf with
+  | metric q => exact h
+  | smpte fps sub => obtain ⟨h1, h2⟩ := h; exact ⟨by omega, by omega, h2⟩
+
+theorem rawDivision_enc (tf : TimeFormat) (h : StrictTF tf) (rest : Bytes) :
+    rawDivision (encTimeFormat tf ++ rest) = some (tf, rest) := by
+  cases tf with
+  | metric q =>
+    obtain ⟨h1, h2⟩ := h
+    have a : ¬ q = 0 := by omega
+    have b : ¬ q > 32767 := by omega
+    have c : q / 256 % 256 < 128 := by omega
+    have d : ¬ (q / 256 % 256 ≥ 256 ∨ q % 256 ≥ 256) := by omega
+    have e : q / 256 % 256 * 256 + q % 256 = q := be16_dec q (by omega)
+    simp [rawDivision, encTimeFormat, a, b, be16, division, c, d, e]
+  | smpte fps sub =>
+    obtain ⟨h1, h2⟩ := h
+    have e1 : fps % 256 = fps := Nat.mod_eq_of_lt (by omega)
+    have e2 : (256 - fps) % 256 = 256 - fps := Nat.mod_eq_of_lt (by omega)
+    have e4 : sub % 256 = sub := Nat.mod_eq_of_lt h2
+    have e5 : 256 - (256 - fps) = fps := by omega
+    have a : ¬ (256 - fps ≥ 256 ∨ sub ≥ 256) := by omega
+    have b : ¬ (256 - fps < 128) := by omega
+    simp [rawDivision, encTimeFormat, e1, e2, e4, division, a, b, e5, h1]
+
+theorem take2_be16 (n : Nat) (h : n < 65536) (rest : Bytes) : take2 (be16 n ++ rest) = some (n, rest) := by
+  have a : ¬ (n / 256 % 256 ≥ 256 ∨ n % 256 ≥ 256) := by omega
+  simp [take2, be16, a, be16_dec n h]
+
+/-- file level: the strict parser on what the writer emits -/
+theorem parse_enc (rsOn : Bool) (fmt : Nat) (tf : TimeFormat) (cs : List CTrack)
+    (hfmt : fmt ≤ 2) (hf0 : fmt = 0 → cs.length = 1) (htf : StrictTF tf) (hne : cs ≠ []) (hn : cs.length < 65536)
+    (hok : ∀ c ∈ cs, CTrackOK c) (hs : ∀ c ∈ cs, SCTrackOK rsOn c) :
+    parse (encHeader fmt cs.length tf ++ (cs.map (chunkBytes rsOn)).flatten) = some ⟨fmt, tf, cs.map prepTrack⟩ := by
+  have t1 : ∀ X : Bytes, take4 (MThd ++ X) = some (MThd, X) := by intro X; simp [take4, MThd]
+  have t2 : ∀ X : Bytes, take4 ([0, 0, 0, 6] ++ X) = some ([0, 0, 0, 6], X) := by intro X; simp [take4]
+  have hb6 : be32 (6 % 4294967296) = [0, 0, 0, 6] := by decide
+  have hl : (be16 fmt ++ be16 cs.length ++ encTimeFormat tf).length = 6 := by
+    obtain ⟨a, b, hab, _⟩ := parseTF_enc tf (strictTF_valid tf htf)
+    simp [be16, hab]
+  have hc := chunks_enc rsOn cs hok hs
+  have hn0 : cs.length ≠ 0 := by intro h; exact hne (List.eq_nil_of_length_eq_zero h)
+  have g : ¬ (fmt > 2 ∨ cs.length = 0 ∨ (fmt = 0 ∧ cs.length ≠ 1)) := by
+    intro h
+    rcases h with h | h | ⟨h1, h2⟩
+    · omega
+    · exact hn0 h
+    · exact h2 (hf0 h1)
+  simp only [encHeader, encChunk, hl, hb6]
+  simp only [List.append_assoc, parse, t1, t2, take2_be16 fmt (by omega),
+    take2_be16 cs.length hn, rawDivision_enc tf htf, hc]
+  rw [if_neg (by simp), if_neg g]
 
 end Midi.Strict
